@@ -163,6 +163,12 @@ func (w *World) Run(sc *Scenario, o RunOpts) *Outcome {
 			}
 			continue
 		}
+		if f.Symlink != "" {
+			if err := os.Symlink(f.Symlink, p); err != nil {
+				harnessPanic("symlink %v", err)
+			}
+			continue
+		}
 		if err := os.WriteFile(p, f.Bytes(), 0600); err != nil {
 			harnessPanic("write %v", err)
 		}
@@ -342,6 +348,11 @@ func snapshotDir(dir string) map[string]FileState {
 		rel, _ := filepath.Rel(dir, p)
 		if info.IsDir() {
 			res[rel] = FileState{Dir: true}
+			return nil
+		}
+		if info.Mode()&os.ModeSymlink != 0 {
+			dest, _ := os.Readlink(p)
+			res[rel] = FileState{Mode: 0, Data: []byte("-> " + dest)}
 			return nil
 		}
 		data, _ := os.ReadFile(p)
